@@ -241,6 +241,13 @@ def run(prog, chk):
     if rewind_rule(prog, r11) < 1:
         raise Broken("no rewind of next_char to text_start found outside the refill functions")
 
+    r16 = chk.rule("R16-last-line-is-measured-too", "where the scanner recognises the end of the input a CIF_OVERLENGTH_LINE report is "
+                   "reachable: a last line without terminator is never followed by the terminator at which lines are measured",
+                   primary=False, floor=1)
+    from .. import lastline
+    if lastline.rule(prog, r16) < 1:
+        raise Broken("no store of the END token type found in next_token")
+
     r15 = chk.rule("R15-line-advance-by-class", "the line counter advances only where the character was found to be of the end-of-line "
                    "class (case label or comparison with EOL_CLASS), never under a test against particular characters alone",
                    primary=False, floor=3)
